@@ -113,6 +113,8 @@ class Interp(ExprMixin, StmtMixin, CallMixin):
     # ------------------------------------------------------------------ spec intrinsics
     def _quant(self, args, is_all):
         lo, hi, fn = args
+        if isinstance(lo, int) and isinstance(hi, int) and hi <= lo:
+            return is_all            # empty range: the body is not even evaluated
         i = z3.Int(self.path.fresh_name("q"))
         rng = z3.And(i >= to_term(lo, "int"), i < to_term(hi, "int"))
         try:
